@@ -94,6 +94,8 @@ def main():
         if len(short) > 230:
             short = short[:227] + "..."
         fin = "; ".join("%s: %s" % (p, WORD[v]) for p, v in final.items()) or "not run"
+        if json.load(open(os.path.join(sd, name, "meta.json"))).get("superseded"):
+            fin = "superseded by a repair (see meta.json)"
         out.append("| %s | %s | %s | %s | %s | %s |" % (name, prop, short, WORD[first], fin, st))
     out += ["", "## What each change needs in order to manifest", ""]
     for name, prop, summ, needs, first, final, st in rows:
